@@ -115,6 +115,19 @@ pub fn loco(p: &Value) -> anyhow::Result<Locomotive> {
     v["mu"] = p.get("mu").cloned().unwrap_or(Value::Null);
     v["ballast_mass"] = Value::Null;
     v["baseline_mass"] = Value::Null;
+    // optional "parts": {"base","ball","fc","gen","res"} [kg]: the locomotive-level mass stays unknown (null) and the
+    // unit is described by its baseline, ballast and component masses only (its mass is then the derived one)
+    if let Some(parts) = p.get("parts").filter(|x| x.is_object()) {
+        v["mass"] = Value::Null;
+        v["baseline_mass"] = json!(f(parts, "base", 0.0));
+        v["ballast_mass"] = json!(f(parts, "ball", 0.0));
+        let lt = if kind == "bel" { "BatteryElectricLoco" } else { "ConventionalLoco" };
+        for (c, key) in [("fc", "fc"), ("gen", "gen"), ("res", "res")] {
+            if v["loco_type"][lt].get(c).is_some() {
+                v["loco_type"][lt][c]["mass"] = json!(f(parts, key, 0.0));
+            }
+        }
+    }
     v["force_max"] = json!(f(p, "force_max", 1.0e6));
     v["assert_limits"] = json!(p.get("assert_limits").and_then(|x| x.as_bool()).unwrap_or(true));
     v["save_interval"] = Value::Null;
